@@ -3,7 +3,7 @@ import os, sys
 sys.path.insert(0, os.path.join(os.path.dirname(os.path.abspath(__file__)), "..", "lib"))
 from vf import H, C, M
 
-MODULES = [M("ohkami_lib/src/serde_cookie/de.rs", "harness/C11/cookie_de.rs"), M("ohkami/src/header/setcookie.rs", "harness/C11/setcookie.rs")]
+MODULES = [M("ohkami_lib/src/serde_cookie/de.rs", "harness/C11/cookie_de.rs"), M("ohkami/src/header/setcookie.rs", "harness/C11/setcookie.rs"), M("ohkami/src/util.rs", "harness/C11/iter_cookies.rs", modname="__verif_c11u")]
 CONTRACTS = []
 B = dict(crate="ohkami_lib", strength="bounded", tier="quick", timeout=900)
 F = "serde_cookie::de::"
@@ -27,5 +27,16 @@ HARNESSES += [H(f"c11_setcookie_concrete_k{k:02d}", crate="ohkami", strength="bo
                 functions=["header::setcookie::SetCookieBuilder::build", "header::setcookie::SetCookie::from_raw", "SetCookieBuilder::{new, Path, HttpOnly, SameSiteLax}"],
                 clauses=["the emitted line starts with `sid=`, its value consists of RFC 6265 cookie-octets only, and it parses back to the value given to the builder and exactly Path=/, HttpOnly, SameSite=Lax"],
                 bound=f"ONE concrete value: {VALS[k]}") for k in range(7)]
+HARNESSES += [
+    H("c11_iter_cookies_plain", crate="ohkami", strength="bounded", tier="quick", timeout=600, expect_covers=False, functions=["util::iter_cookies"],
+      clauses=["a concrete jar of two plain cookies: every name and value as sent, in order, nothing after the last"], bound="ONE concrete jar `a=1; bc=23`"),
+    H("c11_iter_cookies_single_and_empty", crate="ohkami", strength="bounded", tier="quick", timeout=600, expect_covers=False, functions=["util::iter_cookies"],
+      clauses=["a single cookie; a cookie with an empty value followed by another"], bound="2 CONCRETE jars `a=1`, `e=; f=2`"),
+    H("c11_iter_cookies_value_with_eq", crate="ohkami", strength="bounded", tier="quick", timeout=600, expect_covers=False, functions=["util::iter_cookies"],
+      clauses=["a value containing `=` is delivered whole"], bound="ONE concrete jar `sid=YWJj==; x=1`"),
+    H("c11_iter_cookies_encoded_values", crate="ohkami", strength="bounded", tier="quick", timeout=600, expect_covers=False, functions=["util::iter_cookies"],
+      clauses=["a double-quoted value and a percent-encoded value denote the unquoted / decoded value"], bound="ONE concrete jar `q=\"v\"; p=a%20b`: the failing input class of KF-C11-cookie-iterator-raw-values",
+      finding="KF-C11-cookie-iterator-raw-values"),
+]
 TRUSTED = ["ASSUMED CONTRACTS: percent-encoding crate (spec/percent.rs), core::str::from_utf8 (spec/utf8.rs), alloc::fmt::format stubbed", "serde's &str / String Deserialize impls executed, not specified"]
 ASSUMPTIONS = ["typed structs (serde-derived glue), the request's cookie iterator util::iter_cookies are NOT under a discharged contract; Set-Cookie: cookie NAME fixed (`sid`), directive VALUES fixed literals per shape; the byte_reader crate is executed, not specified"]
